@@ -58,6 +58,13 @@ def s0_scenario(name: str) -> dict:
     return sc
 
 
+def s2_scenario(name: str, backend: str) -> dict:
+    sc = s0_scenario(name)
+    sc.update({'backend': backend, 'max_workers': 2, 'cpu_count': 2,
+               'swarm': {'w_coord': 3, 'w_worker': 3, 'w_timeout': 2, 'w_release': 1, 'burst': 2, 'order': 'random', 'gate_mode': 'hold'}})
+    return sc
+
+
 def cache_consistency(prop: str, sc: dict, storage_dir: str, **sig) -> list:
     """Every entry reported cached afterwards loads a complete correct value."""
     gc.collect()
@@ -261,19 +268,49 @@ class C14(Check):
                 k2 = rng.randrange(60) if rng.random() < 0.7 else rng.randrange(400)
                 cases.append({'workload': name, 'interrupts': [{'mode': 'line', 'k': k1}, {'mode': 'line', 'k': k2}]})
             info.append({'workload': name, 'line_events_in_run_tasks': n, 'sampled_pairs': pairs})
+        # process backends: for fixed workloads and fixed schedules, every main-thread line boundary too
+        combos = [('fork', 'chain')] if tier == 'quick' else [(b, w) for b in ('fork', 'spawn') for w in WORKLOADS]
+        for backend, name in combos:
+            if True:
+                for sched in ((1,) if tier == 'quick' else (1, 2, 3)):
+                    sc = s2_scenario(name, backend)
+                    sc['count_lines'] = True
+                    d = tempfile.mkdtemp(dir=workdir)
+                    try:
+                        out = execute(sc, Choices(seed=f'c14s2:{sched}'), d)
+                    finally:
+                        shutil.rmtree(d, ignore_errors=True)
+                    n = out.main_lines
+                    for k in range(n):
+                        cases.append({'workload': name, 'backend': backend, 'sched': sched, 'interrupts': [{'mode': 'line', 'k': k}]})
+                    import random
+                    rng = random.Random(f'{base_seed}:{name}:{backend}:{sched}:pairs')
+                    for _ in range(100 if tier == 'quick' else 600):
+                        k1 = rng.randrange(n)
+                        k2 = rng.randrange(60) if rng.random() < 0.7 else rng.randrange(300)
+                        cases.append({'workload': name, 'backend': backend, 'sched': sched,
+                                      'interrupts': [{'mode': 'line', 'k': k1}, {'mode': 'line', 'k': k2}]})
+                    info.append({'workload': name, 'backend': backend, 'schedule': sched, 'line_events_in_run_tasks': n})
         return cases, {'exhaustive': True, 'per_workload': info,
-                       'what': 'serial backend: every line-event index of the calling thread inside labtech during run_tasks (single interrupt)'}
+                       'what': 'single interrupt at every line-event index of the calling thread inside labtech during run_tasks: serial backend '
+                               '(two workloads) and simulated fork / spawn backends (two workloads, fixed schedules)'}
 
     def run_case(self, case, workdir, tier):
-        sc = s0_scenario(case['workload'])
+        s2 = case.get('backend') in ('fork', 'spawn')
+        sc = s2_scenario(case['workload'], case['backend']) if s2 else s0_scenario(case['workload'])
         sc['interrupts'] = case['interrupts']
+        if s2 and len(case['interrupts']) >= 2:
+            sc['starve_after'] = 2
         d = tempfile.mkdtemp(dir=workdir)
         try:
-            out = execute(sc, Choices(seed='c14'), d)
+            out = execute(sc, Choices(seed=f'c14s2:{case["sched"]}') if s2 else Choices(seed='c14'), d)
             fired = out.fault_counts.get('sigint', 0)
             if not fired:
                 raise RuntimeError(f'interrupt instant {case["interrupts"][0]} was not reached')
-            vs = check_serial_interrupt(sc, out, d, len(case['interrupts']))
+            if s2:
+                vs = check_process_interrupt(sc, out, O.Facts(sc, out), d)
+            else:
+                vs = check_serial_interrupt(sc, out, d, len(case['interrupts']))
             at = [e for e in out.events if e[0] == 'sigint']
             for v in vs:
                 v['detail'] += f' [interrupt(s) at main-thread line index {[i["k"] for i in case["interrupts"]]}; {fired} delivered]'
